@@ -33,7 +33,7 @@ CLAIM = dict(
           "Link/route tables regenerated from rig/links.py and routing_table/entries.py."),
     technique="Lean 4 theorems over a hand-written model + differential correspondence + Lean spec as oracle")
 
-THEOREMS = ["link_tables", "validTree_iff", "validTree_connects", "aStar_path", "copyAndDisconnect_live"]
+THEOREMS = ["link_tables", "validTree_iff", "validTree_connects", "aStar_path", "copyAndDisconnect_live", "walk_hops", "ldf_hops", "nerNet_edges_partial"]
 
 RULE = ("machines 1x1..12x12 (incl. 1xN, 2xN), torus / mesh / partly wrapped, 0-30% dead directed links (half of them "
         "dead in one direction only), dead chips; one net per case with fan-out 0-12, sinks on the source chip, "
